@@ -4,6 +4,7 @@ CONSTANTS
   Sample = 1
   BaseMod = 1
   BaseRem = 0
+  EditSet = "all"
   Stride = 60
   Off = 0
 INVARIANT EmitV
